@@ -429,6 +429,24 @@ def r7_bool_values(ctx, prog, rule_id='C01.R7'):
             r.undecided(g['qname'], 'template flags', 'no read of CKA_PRIVATE / CKA_TOKEN into a policy flag was reached', file=g['file'], line=g['line'])
 
 
+def r11_operations_end_with_login(ctx, prog):
+    """A running sign / decrypt / encrypt / derive operation holds its own copy of the key.  "A private object can be used as a key only through a session of a token on which the normal
+    user is logged in" therefore needs every transition that leaves the user state (C_Logout; closing sessions destroys them anyway) to end the operations of the token's sessions:
+    Session::resetOp must be reachable from the transition."""
+    r = ctx.rule('C01.R11', 'leaving the user state ends the active operations of the token\'s sessions (they hold copies of private keys)', floor=1, engine='E6 call-graph reachability (must-reach)')
+    from engine import callgraph
+    for q in ('SoftHSM::C_Logout',):
+        f = prog.fn(q)
+        ctx.analysed(f)
+        rs = callgraph.reach(prog, q)
+        site = 'operations of the other sessions'
+        if 'Session::resetOp' in rs:
+            r.ok(q, site, 'Session::resetOp is reached', file=f['file'], line=f['line'])
+        else:
+            r.violation(q, site, 'nothing reachable from %s ends the active operations of the token\'s sessions: after C_SignInit / C_DecryptInit / C_EncryptInit with a private key, C_Logout, the pending C_Sign / C_Decrypt / C_Encrypt still succeeds in what is now a public session - the private key is used without the normal user being logged in' % short(q),
+                        file=f['file'], line=f['line'])
+
+
 def run(ctx):
     prog = ctx.prog('ossl-file')
     r1_access(ctx, prog)
@@ -444,6 +462,7 @@ def run(ctx):
     from rules import c09, c08
     c09.r5_cleanup_target(ctx, prog, rule_id='C01.R9')
     c08.r1_engine(ctx, prog, rule_id='C01.R10')
+    r11_operations_end_with_login(ctx, prog)
 
 
 MUTANTS = [
